@@ -310,6 +310,7 @@ type SchedEnv struct {
 	DS       []*appsv1.DaemonSet
 	Volumes  map[string][]oracle.Volume // pod name -> volumes
 	Hooks    *Hooks
+	NoLaunch int // NodeClaims created whose request permits no launch at all
 }
 
 // multisets of size <= k over n shapes, in order of size then lexicographic
